@@ -185,7 +185,7 @@ def stepT (st : St) (w : List String) : St × String :=
         let m := if kind = "itraits" then interfaceTraits st.r id else metatypeTraits st.r id
         (st, s!"R {fmtNamed m} | C - | I - | S {fmtNamedSpec st.s (kind = "itraits") id} ; *")
       | none => (st, "bad-op")
-    else if kind = "alias" then
+    else if kind = "alias" ∨ kind = "alias0" then
       match parseName nm with
       | some (some desc) =>
         -- S: the name in front of the separator (or the whole text), with or without short-name expansion
@@ -197,10 +197,11 @@ def stepT (st : St) (w : List String) : St × String :=
           | some k => k + 1 + ((desc.drop (k + 1)).takeWhile isSpaceC).length
           | none => desc.length
         let cands := [lookupName st.s key (-1), lookupName st.s key key.length]
-        let oks := (cands.filterMap id).eraseDups.map fun i => s!"id={i} end={endOff} ; *"
+        let endTxt := if kind = "alias0" then "-1" else toString endOff
+        let oks := (cands.filterMap id).eraseDups.map fun i => s!"id={i} end={endTxt} ; *"
         let alts := " || ".intercalate (oks ++ (if cands.any (·.isNone) ∨ key = [] then ["refused ; *"] else []))
         match aliasTypeid st.r desc with
-        | .ok (i, e) => (st, s!"R id={i} end={e} | C - | I - | S {alts}")
+        | .ok (i, e) => (st, s!"R id={i} end={if kind = "alias0" then "-1" else toString e} | C - | I - | S {alts}")
         | .err e => (st, s!"R refused | C - | I err={e.name} | S {alts}")
         | _ => (st, s!"R FAULT | C - | I - | S {alts}")
       | _ => (st, "bad-op")
